@@ -4,6 +4,7 @@ CONSTANTS
   Mode = "three"
   Sample = FALSE
   Runs = 1
+  ExhaustInputs = FALSE
   ViewRoots = FALSE
 SPECIFICATION MacroSpec
 INVARIANT C02Three
